@@ -42,6 +42,12 @@ def _new_dir():
         if os.getpid() == pid:
             shutil.rmtree(d, ignore_errors=True)
     atexit.register(_cleanup)
+    # pool workers are terminated without running atexit handlers
+    try:
+        from multiprocessing import util as _mpu
+        _mpu.Finalize(None, _cleanup, exitpriority=10)
+    except Exception:
+        pass
 
 
 def load_source(src: str, prelude: str = PRELUDE, keep: bool = False):
